@@ -23,7 +23,7 @@ ID = "C08"
 LEVEL = "proof"
 PROPS_FILE = "C08.v"
 RUN_MODULE = "RunC08"
-TRANSLATOR_UNITS = ["pysim"]
+TRANSLATOR_UNITS = ["pysim", "pyclock"]
 SHARD = 40
 RULE = ("dedicated clock cases: every period in {1,2,3,7,10,1000,999983} x {1,2,3} fs with phases {default,0,1,half,period,"
         "random} observed through changed/posedge/negedge/tick waits with elapsed_time() at each wake-up; delay cases: "
@@ -903,8 +903,26 @@ def _tborder_case(rng):
                     script.append(["get", rng.choice(shared + [comb, comb, reg])])
         script.append(["get", comb])
         tbs.append(script)
+    tag = ""
+    if rng.random() < 0.5:
+        # relay: a MIDDLE testbench sleeps on changed(a) and is woken, during the pass over the testbenches, by the
+        # set() of the first one, while the later ones are already runnable (woken by the same tick): it must still run
+        # before them (list order is checked as each testbench is reached, not snapshotted at the start of the pass)
+        tag = ":relay"
+        wa, wb = shapes[a][0], shapes[b][0]
+        va = sigs[a][2]
+        first, relay = [], []
+        for r in range(rng.randrange(2, 5)):
+            va = (va + 1 + rng.randrange(0, (1 << wa) - 1)) % (1 << wa) if wa > 1 else 1 - va
+            first += [["tick", 0, []], ["set", a, va], ["get", comb]]
+            relay += [["combo", [["changed", [a]]]], ["get", a], ["set", b, rng.randrange(0, 1 << wb)], ["get", comb]]
+        m = rng.randrange(1, ntb - 1)
+        tbs[0] = first
+        tbs[m] = relay
+        for k in range(m + 1, ntb):                      # the later ones wake at every tick and read the relayed value
+            tbs[k] = [x for r in range(len(first) // 3) for x in (["tick", 0, []], ["get", b], ["get", comb])]
     return {"sigs": sigs, "doms": doms, "mods": mods, "uprocs": [], "clocks": clocks, "tbs": tbs,
-            "t_end": 30 * period, "r": f"tborder:{ntb}tb"}
+            "t_end": 30 * period, "r": f"tborder:{ntb}tb{tag}"}
 
 
 def _map_leaves(t, fn):
